@@ -196,7 +196,8 @@ class Key(DescriptorBase):
         self.allowed_derivation = derivation
 
     def __len__(self):
-        return 34 - int(self.taproot)  # <33:sec> or <32:xonly>
+        # <33:sec>, <32:xonly> or <65:uncompressed sec>
+        return len(self.compile())
 
     @property
     def my_fingerprint(self):
